@@ -27,7 +27,7 @@ ZoneOf(zj) ==
 
 Configs == Rec[1].configs
 CfgOf(id) == LET c == CHOOSE x \in Range(Configs) : x.id = id IN
-             [authOnly |-> TRUE, mode |-> "auth", zones |-> { ZoneOf(c.zones[i]) : i \in DOMAIN c.zones }, rdmap |-> c.rdmap]
+             [authOnly |-> Rec[1].mode = "auth", mode |-> Rec[1].mode, zones |-> { ZoneOf(c.zones[i]) : i \in DOMAIN c.zones }, rdmap |-> c.rdmap]
 
 Bit(x, mask) == (x \div mask) % 2 = 1
 
